@@ -787,9 +787,10 @@ def run_settings(case, base=None):
     with instr.Installed(clock, extra_modules=[fanout_mod]):
         F = {'A': diskcache.FanoutCache(d1, shards=n, **init)}
         C = {'A': diskcache.Cache(d2, **init)}
-        # the second handle gives no setting but size_limit (FanoutCache always writes one: finding C18-F1)
-        F['B'] = diskcache.FanoutCache(d1, shards=n, size_limit=init['size_limit'])
-        C['B'] = diskcache.Cache(d2, size_limit=init['size_limit'])
+        # the second handle gives no setting at all: it finds what the first one stored (size_limit included: every shard keeps
+        # the share stored in it, C18)
+        F['B'] = diskcache.FanoutCache(d1, shards=n)
+        C['B'] = diskcache.Cache(d2)
         stored = dict(init)
         mem = {'A': dict(init), 'B': dict(init)}
         sweeps = sweep_keys(F['A'].disk, n)
@@ -967,10 +968,39 @@ def monitor_placement(ctx, res, keys, hist, obs):
             ok = all(type(l) in (int, float) and abs(Fraction(l) - exact) <= Fraction(abs(l)) / 2 ** 52 for l in lims) and len(set(lims)) == 1
             res.count(['limit', n, given], nontrivial=n > 1)
             obs['limits'].append((n, total, lims[0]))
+            # was the share handed to the (new) shards?  decidable when it differs from what a Cache takes on its own
+            dflt = core.DEFAULT_SETTINGS['size_limit']
+            if ok and Fraction(total, n) != dflt:
+                obs['handed'].append((given is not None, False, True))
             if not ok:
                 res.violations.append(fw.Violation('size_limit_not_divided', 'FanoutCache(shards=%d, size_limit=%r): shard limits %r, expected %s each' % (
                     n, given, lims[:3], exact), {'check': 'limit', 'shards': n, 'size_limit': given, 'shard_limits': [repr(l) for l in lims]}))
             f2.close()
+            # the shards go on adding up to that total: a handle opened without size_limit leaves every share as it is stored,
+            # one opened with another total divides that one
+            f3 = diskcache.FanoutCache(d2, shards=n)
+            lims3 = [s.size_limit for s in f3._shards]
+            f3.close()
+            res.count(['limit-reopen', n, given], nontrivial=n > 1)
+            if ok and exact != Fraction(dflt, n):       # existing shards, nothing given: handed the default share, or nothing
+                if all(Fraction(l) == Fraction(dflt, n) for l in lims3) or lims3 == lims:
+                    obs['handed'].append((False, True, lims3 != lims))
+            if lims3 != lims:
+                res.violations.append(fw.Violation('size_limit_not_divided', 'FanoutCache(shards=%d, size_limit=%r) reopened without size_limit: shard limits %r, '
+                                                   'they were %r (%s each)' % (n, given, lims3[:3], lims[:3], exact),
+                                                   {'check': 'limit', 'shards': n, 'size_limit': given, 'reopen': None, 'shard_limits': [repr(l) for l in lims3]}))
+            total4 = 3 * 2 ** 20 + 5
+            f4 = diskcache.FanoutCache(d2, shards=n, size_limit=total4)
+            lims4 = [s.size_limit for s in f4._shards]
+            f4.close()
+            exact4 = Fraction(total4, n)
+            res.count(['limit-regiven', n, given], nontrivial=n > 1)
+            if lims4 != lims3:
+                obs['handed'].append((True, True, True))
+            if not (all(type(l) in (int, float) and abs(Fraction(l) - exact4) <= Fraction(abs(l)) / 2 ** 52 for l in lims4) and len(set(lims4)) == 1):
+                res.violations.append(fw.Violation('size_limit_not_divided', 'FanoutCache(shards=%d, size_limit=%r) reopened with size_limit=%d: shard limits %r, '
+                                                   'expected %s each' % (n, given, total4, lims4[:3], exact4),
+                                                   {'check': 'limit', 'shards': n, 'size_limit': given, 'reopen': total4, 'shard_limits': [repr(l) for l in lims4]}))
         fc.close()
 
 
@@ -1179,6 +1209,10 @@ def correspondence(ctx, res, obs, limit):
         if fr == exact:     # representable: the model's rational is the value itself
             checks.append('Qeq_bool (shard_size_limit %d %d) (Qmake (%d) %d)' % (total, n, fr.numerator, fr.denominator))
             what.append(('limit', n, total, repr(lim)))
+    for (g, ex, handed) in sorted(set(obs['handed'])):
+        cb = lambda b: 'true' if b else 'false'
+        checks.append('Bool.eqb (shard_limit_passed %s %s) %s' % (cb(g), cb(ex), cb(handed)))
+        what.append(('limit handed to a shard', 'size_limit given' if g else 'size_limit not given', 'shard exists' if ex else 'new shard', handed))
     rng = ctx.rng
     for i in range(40 if ctx.quick else 200):
         ln = rng.choice([0, 1, 2, 7, 8, 64, 300, 5551, 5552, 5553, 6000]) if i < 12 else rng.randrange(0, 400)
@@ -1323,10 +1357,10 @@ def run(ctx, big=False):
                 'unsharded Cache driven by the same steps and with the documented meaning of reset (the value stored last is what a reload '
                 'returns); after every reset the setting must be the same on every shard of the handle.  (2) every key of a fixed list stored on every shard count: the NNN directory whose cache.db '
                 'receives the row is %03d of Disk.hash % shards; the list hashed and written/read in 4 fresh interpreters with different PYTHONHASHSEED '
-                'and compared with fixtures/routing.json.  (3) model hash/shard/shard_dir/shard_size_limit/adler32 against the implementation.  '
+                'and compared with fixtures/routing.json.  (3) model hash/shard/shard_dir/shard_size_limit/shard_limit_passed/adler32 against the implementation.  '
                 'non-trivial = history with more than 5 executed operations, placement with more than one shard; distinct = distinct case content.')
     hist = {'ops': {}, 'outcomes': {}, 'shards': {}, 'streams': {}, 'key_classes': {}, 'keys_per_shard': {}, 'placements': 0, 'faults': 0, 'variants': {}, 'settings_steps': {}}
-    obs = {'keys': [], 'dirs': [], 'limits': []}
+    obs = {'keys': [], 'dirs': [], 'limits': [], 'handed': []}
     thorough = (not ctx.quick) or big
     modelcases = []
     if ctx.quick:
@@ -1410,6 +1444,13 @@ def replay(payload):
             fc.close()
             total = core.DEFAULT_SETTINGS['size_limit'] if case['size_limit'] is None else case['size_limit']
             print('shard limits', lims, 'total', total)
+            if 'reopen' in case:        # then opened again, without size_limit (None) or with another total
+                kw = {} if case['reopen'] is None else {'size_limit': case['reopen']}
+                fc = diskcache.FanoutCache(d, shards=case['shards'], **kw)
+                lims = [s.size_limit for s in fc._shards]
+                fc.close()
+                total = total if case['reopen'] is None else case['reopen']
+                print('reopened with', kw, '-> shard limits', lims, 'total', total)
             return all(abs(Fraction(l) - Fraction(total, case['shards'])) <= Fraction(abs(l)) / 2 ** 52 for l in lims)
         finally:
             shutil.rmtree(d, ignore_errors=True)
